@@ -127,7 +127,7 @@ partial def showTV : Ty → V → String
   | .opt t, .some v => "(j " ++ showTV t v ++ ")"
   | .res a _, .alt 1 v => "(a 1 " ++ showTV a v ++ ")"
   | .res _ b, .alt 0 v => "(a 0 " ++ showTV b v ++ ")"
-  | .wrap t, v => showTV t v
+  | .wrap _ t, v => showTV t v
   | .tup _ _ ts, .tup l => "(t" ++ goL ts l ++ ")"
   | .arr _ t, .tup l => "(t" ++ String.join (l.toList.map (fun v => " " ++ showTV t v)) ++ ")"
   | .struct _ _ _ fs, .tup l => "(t" ++ goF fs l ++ ")"
@@ -206,7 +206,8 @@ partial def parseTy (env : TyEnv) : Sx → Option Ty
     match parseTy env a, parseTy env b with
     | some a, some b => some (.res a b)
     | _, _ => none
-  | .list [.atom "wrap", t] => (parseTy env t).map .wrap
+  | .list [.atom "wrap", t] => (parseTy env t).map (.wrap false)
+  | .list [.atom "cell", t] => (parseTy env t).map (.wrap true)
   | .list (.atom "tup" :: lay :: .list (.atom "offs" :: offs) :: ts) =>
     match parseLay lay, parseNats offs, parseTyL ts with
     | some lay, some offs, some ts => some (.tup lay offs ts)
